@@ -10,7 +10,10 @@ package main
 // credits, and the ACCOUNT-TYPE operations: MsgConvertVestingAccount (vesting ->
 // plain EthAccount) at any point, MsgConvertIntoVestingAccount (plain -> vesting,
 // or a merge), MsgCreateClawbackVestingAccount{Merge}, MsgUpdateVestingFunder,
-// MsgClawback by the current / a stale funder.  After every transaction: bank
+// MsgClawback by the current / a stale funder, and MsgConvertIntoVestingAccount{Stake}
+// (the auto-stake of the vested part of the grant: onto a new address, a plain account
+// with or without delegations, or merged into a clawback account that has spent,
+// delegated or unbonded what its earlier grants vested).  After every transaction: bank
 // balance vs the locked amount computed here from the stored schedule by an
 // independent big.Int reference.  A successful MsgConvertVestingAccount must find
 // the schedule done (nothing locked up, nothing unvested, whatever is delegated);
@@ -92,10 +95,12 @@ type lkOp struct {
 	Who   string   `json:"who,omitempty"`   // signer of clawback / grant / into / updatefunder: "" = F, "F2"
 	To    string   `json:"to,omitempty"`    // updatefunder: the new funder
 	Merge bool     `json:"merge,omitempty"` // into: MsgConvertIntoVestingAccount{Merge}
+	Stake bool     `json:"stake,omitempty"` // into: MsgConvertIntoVestingAccount{Stake}: the vested part of the grant is staked at once
 }
 
 type lkInput struct {
-	Create   string    `json:"create"` // "create" | "convert"
+	Create   string    `json:"create"` // "create" | "convert" (an existing EthAccount) | "new" (MsgConvertIntoVestingAccount onto an address without account)
+	Stake    bool      `json:"stake,omitempty"` // convert / new: MsgConvertIntoVestingAccount{Stake}
 	Sched    lkSched   `json:"sched"`
 	Extra    [2]string `json:"extra"`              // free coins on top of the grant
 	PreDeleg string    `json:"predeleg,omitempty"` // convert: delegated before the conversion
@@ -199,6 +204,17 @@ func (e *lkEnv) vacc() *vestingtypes.ClawbackVestingAccount {
 	acc := e.App.AccountKeeper.GetAccount(e.Ctx, lkAccV)
 	va, _ := acc.(*vestingtypes.ClawbackVestingAccount)
 	return va
+}
+
+// probeVacc runs msg on a throw-away copy of the state and returns the vesting account it leaves (nil when refused).
+func (e *lkEnv) probeVacc(msg sdk.Msg) *vestingtypes.ClawbackVestingAccount {
+	saved := e.Ctx
+	defer func() { e.Ctx = saved }()
+	e.Ctx, _ = saved.CacheContext()
+	if _, err := e.runMsg(msg); err != nil {
+		return nil
+	}
+	return e.vacc()
 }
 
 // ---------------------------------------------------------------- independent reference (the property's formula)
@@ -689,15 +705,38 @@ func (e *lkEnv) apply(op lkOp, pre *lkSnap) lkStep {
 			s := op.Sched
 			from, id := lkFunder(op.Who)
 			start := e.t0.Add(time.Duration(s.Start) * time.Second)
-			_, st.err = e.runMsg(vestingtypes.NewMsgConvertIntoVestingAccount(from, lkAccV, start, lkPeriods(s.Lockup), lkPeriods(s.Vesting), op.Merge, false, nil))
-			if st.err == nil {
-				va := e.vacc()
-				g := lkTotal(s.Vesting)
-				st.coq = append(st.coq, fmt.Sprintf("L2ConvertInto %s %s %s %s %s %s %s %s %s %s", coqN(id), coqBool(op.Merge), z(g[0]), z(g[1]), coqZi(va.StartTime.Unix()), coqZi(va.EndTime),
-					lkCoqPeriods(va.LockupPeriods, 0), lkCoqPeriods(va.LockupPeriods, 1), lkCoqPeriods(va.VestingPeriods, 0), lkCoqPeriods(va.VestingPeriods, 1)))
-			} else if pre.va != nil && (!op.Merge || id != pre.funder) {
+			mk := func(stake bool) sdk.Msg {
+				var v sdk.ValAddress
+				if stake {
+					v = val
+				}
+				return vestingtypes.NewMsgConvertIntoVestingAccount(from, lkAccV, start, lkPeriods(s.Lockup), lkPeriods(s.Vesting), op.Merge, stake, v)
+			}
+			g := lkTotal(s.Vesting)
+			schedTerm := func(va *vestingtypes.ClawbackVestingAccount) string {
+				return fmt.Sprintf("%s %s %s %s %s %s %s %s %s %s", coqN(id), coqBool(op.Merge), z(g[0]), z(g[1]), coqZi(va.StartTime.Unix()), coqZi(va.EndTime),
+					lkCoqPeriods(va.LockupPeriods, 0), lkCoqPeriods(va.LockupPeriods, 1), lkCoqPeriods(va.VestingPeriods, 0), lkCoqPeriods(va.VestingPeriods, 1))
+			}
+			// the message's own start time and vesting periods (bond denomination): what delegateVestedCoins reads
+			stakeTerm := func() string { return fmt.Sprintf("%s %s", coqZi(start.Unix()), lkCoqPeriods(lkPeriods(s.Vesting), 0)) }
+			var probe *vestingtypes.ClawbackVestingAccount
+			if op.Stake {
+				// the schedule the account gets from this message: the same message without the stake option on a
+				// throw-away context (needed as model input when the stake part refuses the whole message)
+				probe = e.probeVacc(mk(false))
+			}
+			_, st.err = e.runMsg(mk(op.Stake))
+			switch {
+			case st.err == nil && op.Stake:
+				st.coq = append(st.coq, fmt.Sprintf("L2ConvertIntoStake %s %s", schedTerm(e.vacc()), stakeTerm()))
+			case st.err == nil:
+				st.coq = append(st.coq, "L2ConvertInto "+schedTerm(e.vacc()))
+			case pre.va != nil && (!op.Merge || id != pre.funder):
 				// a vesting account without --merge, or a merge by somebody else: refused before the schedules are looked at
 				st.coq = append(st.coq, fmt.Sprintf("L2ConvertInto %s %s 0%%Z 0%%Z 0%%Z 0%%Z [] [] [] []", coqN(id), coqBool(op.Merge)))
+			case op.Stake && probe != nil:
+				// the schedule part is acceptable, the stake part refused the message: the model must refuse as well
+				st.coq = append(st.coq, fmt.Sprintf("L2ConvertIntoStake %s %s", schedTerm(probe), stakeTerm()))
 			}
 		case "updatefunder":
 			from, id := lkFunder(op.Who)
@@ -723,7 +762,25 @@ func (e *lkEnv) setupAccount(in lkInput) error {
 			return fmt.Errorf("register coin: %w", err)
 		}
 	}
-	if in.Create == "convert" {
+	var stakeVal sdk.ValAddress
+	if in.Stake {
+		stakeVal = e.valAddr
+	}
+	if in.Create == "new" {
+		// no account at the address: ApplyVestingSchedule creates the vesting account
+		if acc := e.App.AccountKeeper.GetAccount(e.Ctx, lkAccV); acc != nil {
+			return fmt.Errorf("new: the account exists already")
+		}
+		msg := vestingtypes.NewMsgConvertIntoVestingAccount(lkF, lkAccV, start, lkPeriods(in.Sched.Lockup), lkPeriods(in.Sched.Vesting), false, in.Stake, stakeVal)
+		if _, err := e.runMsg(msg); err != nil {
+			return fmt.Errorf("new: %w", err)
+		}
+		if cs := lkCoins2(extra); !cs.IsZero() {
+			if err := e.App.BankKeeper.SendCoins(e.Ctx, lkF, lkAccV, cs); err != nil {
+				return err
+			}
+		}
+	} else if in.Create == "convert" {
 		pd := bigOf(in.PreDeleg)
 		fund := [2]*big.Int{new(big.Int).Add(extra[0], pd), extra[1]}
 		if fund[0].Sign() == 0 {
@@ -737,7 +794,7 @@ func (e *lkEnv) setupAccount(in lkInput) error {
 				return fmt.Errorf("pre-delegation: %w", err)
 			}
 		}
-		msg := vestingtypes.NewMsgConvertIntoVestingAccount(lkF, lkAccV, start, lkPeriods(in.Sched.Lockup), lkPeriods(in.Sched.Vesting), false, false, nil)
+		msg := vestingtypes.NewMsgConvertIntoVestingAccount(lkF, lkAccV, start, lkPeriods(in.Sched.Lockup), lkPeriods(in.Sched.Vesting), false, in.Stake, stakeVal)
 		if _, err := e.runMsg(msg); err != nil {
 			return fmt.Errorf("convert: %w", err)
 		}
@@ -791,6 +848,9 @@ func lockedRunCase(id string, in lkInput) Case {
 	steps := []string{}
 	obsAll := []lkObs{}
 	tags := map[string]bool{"create:" + in.Create: true}
+	if in.Stake {
+		tags["create:"+in.Create+" with stake"] = true
+	}
 	if in.Erc20 {
 		tags["erc20-pair"] = true
 	}
@@ -807,6 +867,16 @@ func lockedRunCase(id string, in lkInput) Case {
 		if oracleObl == "" {
 			oracleObl = fmt.Sprintf("step %d (%s %s): %s", i, op.Op, op.Mode, msg)
 		}
+	}
+	// the property on the state the creating message left (MsgConvertIntoVestingAccount{Stake} delegates at creation)
+	for d := 0; d < 2; d++ {
+		if l := pre.ref.locked(pre.now, d); pre.bal[d].Cmp(l) < 0 {
+			fail(-1, lkOp{Op: "setup:" + in.Create}, fmt.Sprintf("the creating message left a %s balance of %s below the locked amount %s (original %s, tracked delegated %s)",
+				lkDenoms[d], pre.bal[d], l, pre.ref.Orig[d], pre.ref.Tracked[d]))
+		}
+	}
+	if u := pre.ref.unvested(pre.now, 0); pre.bal[0].Cmp(u) < 0 {
+		fail(-1, lkOp{Op: "setup:" + in.Create}, fmt.Sprintf("the creating message left balance %s below the unvested amount %s: unvested coins were delegated (bonded %s)", pre.bal[0], u, pre.deleg))
 	}
 	shadows := []*lkShadow{}
 	decorate := func(s *lkSnap) {
@@ -849,8 +919,13 @@ func lockedRunCase(id string, in lkInput) Case {
 		if pre.va == nil {
 			kind = " [plain]"
 		}
-		tags[fmt.Sprintf("%s %s%s:%s", op.Op, op.Mode, kind, res)] = true
+		mode := op.Mode
+		if op.Op == "into" {
+			mode = map[bool]string{false: "", true: "merge"}[op.Merge] + map[bool]string{false: "", true: "+stake"}[op.Stake]
+		}
+		tags[fmt.Sprintf("%s %s%s:%s", op.Op, mode, kind, res)] = true
 		now := post.now
+		var stakeRef *big.Int // into{Stake}: the vested part of THIS grant at the block time, by the reference
 		// ---- the account-type operations
 		switch op.Op {
 		case "convert":
@@ -904,6 +979,56 @@ func lockedRunCase(id string, in lkInput) Case {
 			}
 			if ok && pre.va != nil {
 				tags["into:merged"] = true
+			}
+			if op.Stake {
+				gs := e.t0.Unix() + op.Sched.Start
+				gp := []lkRefPeriod{}
+				for _, p := range op.Sched.Vesting {
+					gp = append(gp, lkRefPeriod{p.Len, [2]*big.Int{bigOf(p.Amt[0]), bigOf(p.Amt[1])}})
+				}
+				stakeRef = lkRefEv(gs, gp, now, 0)
+				// what the earlier grants had vested, and what of it is still in the balance
+				oldV := lkRefEv(pre.ref.Start, pre.ref.Vesting, now, 0)
+				shape := "onto a plain account"
+				if pre.va != nil {
+					held := sub(pre.bal[0], pre.ref.unvested(now, 0)) // vested or free coins in the balance
+					switch {
+					case oldV.Sign() == 0:
+						shape = "earlier grants: nothing vested"
+					case held.Cmp(oldV) >= 0:
+						shape = "earlier grants: vested coins all held"
+					case held.Sign() > 0:
+						shape = "earlier grants: vested coins partly gone"
+					default:
+						shape = "earlier grants: vested coins all gone"
+					}
+					shape += fmt.Sprintf(" (bonded=%v unbonding=%v)", pre.deleg.Sign() > 0, pre.unb.Sign() > 0)
+				} else if pre.deleg.Sign() > 0 || pre.unb.Sign() > 0 {
+					shape += " with delegations"
+				}
+				part := "none"
+				if g0 := lkTotal(op.Sched.Vesting)[0]; stakeRef.Sign() > 0 && stakeRef.Cmp(g0) < 0 {
+					part = "part"
+				} else if stakeRef.Sign() > 0 {
+					part = "all"
+				}
+				tags[fmt.Sprintf("into+stake merge=%v: %s, this grant vested: %s -> %s", op.Merge, shape, part, res)] = true
+				if ok {
+					g := lkTotal(op.Sched.Vesting)
+					staked := sub(new(big.Int).Add(pre.bal[0], g[0]), post.bal[0])
+					st.amt[0] = staked
+					// Unvested coins can not be delegated, whoever requests the delegation: after the message all
+					// unvested coins (reference evaluation of the stored schedule) must still be in the balance
+					if u := new(big.Int).Add(post.ref.unvested(now, 0), post.oblUnvested); post.bal[0].Cmp(u) < 0 {
+						fail(i, op, fmt.Sprintf("MsgConvertIntoVestingAccount{merge=%v, stake} deposited %s and staked %s: the balance %s is now below the unvested amount %s — unvested coins were delegated (the vested part of this grant is %s; before the message: balance %s, unvested %s, earlier grants vested %s)",
+							op.Merge, g[0], staked, post.bal[0], u, stakeRef, pre.bal[0], pre.ref.unvested(now, 0), oldV))
+					}
+					if staked.Cmp(stakeRef) == 0 {
+						tags["into+stake: staked = vested part of this grant"] = true
+					} else {
+						tags["into+stake: staked differs from the vested part of this grant"] = true
+					}
+				}
 			}
 		case "updatefunder":
 			if ok && post.funder == pre.funder {
@@ -970,6 +1095,15 @@ func lockedRunCase(id string, in lkInput) Case {
 				fail(i, op, "after this successful transaction the balance is below the locked amount")
 			}
 		}
+		// "unvested coins can not be delegated", as a state property: after EVERY successful operation (delegations,
+		// merges, stake messages, clawbacks, time, slashes, payouts included) the unvested amount of the stored
+		// schedule is still in the balance — what is bonded or unbonding never contains an unvested coin
+		if ok {
+			if u := new(big.Int).Add(post.ref.unvested(now, 0), post.oblUnvested); post.bal[0].Cmp(u) < 0 {
+				fail(i, op, fmt.Sprintf("after this successful operation the balance %s is below the unvested amount %s (bonded %s, unbonding %s): unvested coins are delegated", post.bal[0], u, post.deleg, post.unb))
+				tags[fmt.Sprintf("balance-below-unvested after %s", op.Op)] = true
+			}
+		}
 		// the same rule against the obligations of discarded schedules (on top of the stored account's own locked amount)
 		if len(shadows) > 0 && checked && op.Op != "convert" {
 			for d := 0; d < 2; d++ {
@@ -991,6 +1125,10 @@ func lockedRunCase(id string, in lkInput) Case {
 		case "delegate", "authzdelegate", "pdelegate":
 			if ok {
 				expDeleg.Add(expDeleg, st.amt[0])
+			}
+		case "into":
+			if ok && op.Stake && stakeRef != nil {
+				expDeleg.Add(expDeleg, stakeRef)
 			}
 		case "undelegate":
 			if ok {
@@ -1186,7 +1324,7 @@ func lkGenOp(r *Rng, in *lkInput, scale int) lkOp {
 		return lkOp{Op: "convert"}
 	case x < 98:
 		s := lkGenSched(r, -1500, 1500, scale)
-		return lkOp{Op: "into", Sched: &s, Who: lkWho(r, 20), Merge: r.Chance(40)}
+		return lkOp{Op: "into", Sched: &s, Who: lkWho(r, 20), Merge: r.Chance(40), Stake: r.Chance(50)}
 	default:
 		if r.Chance(65) {
 			return lkOp{Op: "updatefunder", Who: "", To: "F2"}
@@ -1196,8 +1334,11 @@ func lkGenOp(r *Rng, in *lkInput, scale int) lkOp {
 }
 
 func lkGen(r *Rng) lkInput {
-	if r.Chance(35) {
+	switch x := r.Intn(100); {
+	case x < 30:
 		return lkGenAccountType(r)
+	case x < 55:
+		return lkGenStake(r)
 	}
 	scale := []int{12, 64, 90}[r.Intn(3)]
 	in := lkInput{Create: "create", Sched: lkGenSched(r, -1500, 400, scale), Extra: [2]string{"0", "0"}}
@@ -1345,7 +1486,7 @@ func lkGenAccountType(r *Rng) lkInput {
 		if r.Chance(45) {
 			// a vesting account again (or a merge when the conversion was refused); the next round follows this schedule
 			s := lkGenSched(r, int(cur)-1500, int(cur)+100, scale)
-			add(lkOp{Op: "into", Sched: &s, Who: lkWho(r, 20), Merge: r.Chance(35)})
+			add(lkOp{Op: "into", Sched: &s, Who: lkWho(r, 20), Merge: r.Chance(35), Stake: r.Chance(40)})
 			vestEnd, lockEnd = lkEnds(s)
 			add(spendOp("sp+1"))
 			add(lkOp{Op: lkDelegNames[r.Intn(3)], Mode: "dg+1"})
@@ -1353,6 +1494,152 @@ func lkGenAccountType(r *Rng) lkInput {
 				s2 := lkGenSched(r, int(cur)-1500, int(cur)+1500, scale)
 				add(lkOp{Op: "grant", Sched: &s2, Who: lkWho(r, 20)})
 			}
+		}
+		for k := r.Intn(3); k > 0; k-- {
+			add(lkGenOp(r, &in, scale))
+		}
+	}
+	return in
+}
+
+// Histories around MsgConvertIntoVestingAccount{Stake}: the auto-stake delegates through the staking KEEPER, not
+// through the staking message server, so Haqq's unvested-coins guard is not on that path and the amount is what
+// the vesting module computes.  An account (created by MsgCreateClawbackVestingAccount, converted from an
+// EthAccount with or without earlier delegations, or created by the message itself on a fresh address, with or
+// without the stake option) whose first grant started in the past; the block time is steered into / behind that
+// grant's schedule; the coins the earlier grants have vested are left alone / spent / half spent / delegated /
+// delegated and unbonding / unbonded again and spent; then the funder adds a grant that is not, partly or fully
+// vested at that moment, with and without Merge and Stake; then the funder's clawback, spends at spendable and
+// spendable+1, delegations at delegatable+1, undelegation, unbonding maturity, a conversion to a plain account and
+// a stake message onto the plain account, and a second round on top of the merged schedule.
+func lkGenStake(r *Rng) lkInput {
+	scale := []int{12, 40, 64, 90}[r.Intn(4)]
+	in := lkInput{Create: []string{"create", "create", "convert", "new"}[r.Intn(4)], Sched: lkGenSched(r, -4000, -100, scale), Extra: [2]string{"0", "0"}}
+	if in.Create != "create" && r.Chance(50) {
+		in.Stake = true
+	}
+	if in.Create == "convert" && r.Chance(40) {
+		x := r.Big(scale)
+		in.PreDeleg = x.Add(x, big.NewInt(1)).String()
+	}
+	if r.Chance(30) {
+		in.Extra[0] = r.Big(scale).String()
+	}
+	if r.Chance(15) {
+		in.Extra[1] = r.Big(40).String()
+	}
+	vestEnd, lockEnd := lkEnds(in.Sched)
+	cur := int64(0)
+	add := func(op lkOp) {
+		if op.Op == "adv" || op.Op == "endblock" {
+			cur += int64(op.DT)
+		}
+		in.Ops = append(in.Ops, op)
+	}
+	advTo := func(t int64) {
+		if t > cur {
+			add(lkOp{Op: "adv", DT: int(t - cur)})
+		}
+	}
+	spendOp := func(mode string) lkOp { return lkOp{Op: lkSpendNames[r.Intn(len(lkSpendNames))], Mode: mode} }
+	delegOp := func(mode string) lkOp { return lkOp{Op: lkDelegNames[r.Intn(3)], Mode: mode} }
+	rounds := 1 + r.Intn(2)
+	for round := 0; round < rounds; round++ {
+		// where in the schedule of the earlier grants the new grant arrives
+		lo, hi := vestEnd, lockEnd
+		if lo > hi {
+			lo, hi = hi, lo
+		}
+		switch r.Intn(6) {
+		case 0: // at once
+		case 1:
+			advTo(lo)
+		case 2:
+			advTo(lo + 1 + int64(r.Intn(int(hi-lo)+1))/2)
+		case 3, 4:
+			advTo(hi + 1 + int64(r.Intn(300))) // everything vested and unlocked
+		default:
+			advTo(cur + int64([]int{1, 100, 700}[r.Intn(3)]))
+		}
+		// what became of the coins the earlier grants have vested
+		switch r.Intn(8) {
+		case 0:
+		case 1, 2:
+			add(spendOp("sp"))
+		case 3:
+			add(spendOp("half"))
+		case 4:
+			add(delegOp("dg"))
+		case 5:
+			add(delegOp([]string{"dg", "half"}[r.Intn(2)]))
+			add(lkOp{Op: "undelegate", Mode: []string{"sp", "half"}[r.Intn(2)]}) // unbonding in flight
+			if r.Chance(50) {
+				add(spendOp("sp"))
+			}
+		case 6:
+			add(delegOp("dg"))
+			add(lkOp{Op: "undelegate", Mode: "sp"})
+			add(lkOp{Op: "endblock", DT: 350}) // unbonded: the coins are back in the balance
+			add(spendOp([]string{"sp", "half"}[r.Intn(2)]))
+		default:
+			add(delegOp("half"))
+			add(spendOp("sp"))
+		}
+		if r.Chance(5) {
+			add(lkOp{Op: "slash", Frac: "100000000000000000"})
+		}
+		// the new grant: not / partly / fully vested at the block time; a deposit of the same or a larger size
+		gs := scale
+		if scale < 90 && r.Chance(50) {
+			gs += 1 + r.Intn(3)
+		}
+		var s lkSched
+		switch r.Intn(8) {
+		case 0:
+			s = lkGenSched(r, int(cur)+1, int(cur)+300, gs) // nothing vested: the stake part refuses the message
+		case 1:
+			s = lkGenSched(r, int(cur)-9000, int(cur)-6500, gs) // fully vested
+		default:
+			s = lkGenSched(r, int(cur)-1500, int(cur)-1, gs)
+		}
+		add(lkOp{Op: "into", Sched: &s, Who: lkWho(r, 8), Merge: r.Chance(88), Stake: r.Chance(90)})
+		ve, le := lkEnds(s)
+		if ve > vestEnd {
+			vestEnd = ve
+		}
+		if le > lockEnd {
+			lockEnd = le
+		}
+		// afterwards
+		if r.Chance(45) {
+			add(lkOp{Op: "clawback", Who: lkWho(r, 10)})
+		}
+		add(spendOp("sp+1"))
+		add(delegOp("dg+1"))
+		if r.Chance(40) {
+			add(lkOp{Op: "undelegate", Mode: []string{"sp", "half", "one"}[r.Intn(3)]})
+			add(lkOp{Op: "endblock", DT: []int{350, 100}[r.Intn(2)]})
+		}
+		if r.Chance(30) {
+			add(lkOp{Op: "adv", DT: []int{10, 400, 2500}[r.Intn(3)]})
+		}
+		add(spendOp([]string{"sp", "sp+1"}[r.Intn(2)]))
+		if r.Chance(25) {
+			// a plain account (when the schedule is done), then the stake message onto it
+			end := vestEnd
+			if lockEnd > end {
+				end = lockEnd
+			}
+			advTo(end - 1 + int64(r.Intn(3))) // just before / at / after the end of the merged schedule
+			add(lkOp{Op: "convert"})
+			if r.Chance(50) {
+				add(spendOp("half"))
+			}
+			s2 := lkGenSched(r, int(cur)-1500, int(cur)+50, gs)
+			add(lkOp{Op: "into", Sched: &s2, Who: lkWho(r, 30), Merge: r.Chance(30), Stake: r.Chance(85)})
+			vestEnd, lockEnd = lkEnds(s2)
+			add(spendOp("sp+1"))
+			add(delegOp("dg+1"))
 		}
 		for k := r.Intn(3); k > 0; k-- {
 			add(lkGenOp(r, &in, scale))
